@@ -4,7 +4,7 @@ Each module defines  register(reg) -> {property_id: {unit_name: unit}}.
 """
 import importlib
 
-MODULES = ['util', 'inputfile', 'tokenizer', 'walker', 'visitor', 'contextdb', 'parsingstate', 'encoder', 'enctables', 'collector']
+MODULES = ['util', 'inputfile', 'tokenizer', 'walker', 'visitor', 'contextdb', 'parsingstate', 'encoder', 'enctables', 'collector', 'parsers']
 REPLAYERS = {}
 EXTRA_ASSUMPTIONS = {}
 
